@@ -177,6 +177,16 @@ def Operand.num : Operand → Nat
   | .q v => v
   | .s _ => 0
 
+/-- `if val.contains(FLAG) { .. }` per row : (val & FLAG) == FLAG, in source order -/
+def maskSel (rows : List (Nat × List Elem)) (v : Nat) : List Elem :=
+  (rows.filter (fun r => v &&& r.1 == r.1)).flatMap (·.2)
+
+/-- `match val { X => vec![..], .., _ => vec![] }` : first matching row -/
+def enumSel (rows : List (Nat × List Elem)) (v : Nat) : List Elem :=
+  match rows.find? (fun r => r.1 == v) with
+  | some r => r.2
+  | none => []
+
 /-- `Parser::parse_operand(kind)` -/
 def parseOperand (G : Tables) (kind : Nat) (d : DState) : PRes IErr (List Operand) × DState :=
   match G.kindActs[kind]? with
@@ -186,9 +196,7 @@ def parseOperand (G : Tables) (kind : Nat) (d : DState) : PRes IErr (List Operan
   | some (.maskParams e rows) =>
     match decodeElem G e d with
     | (.ok v, d1) =>
-      -- `if val.contains(FLAG)` : (val & FLAG) == FLAG, in source order
-      let sel := (rows.filter (fun r => v.num &&& r.1 == r.1)).flatMap (·.2)
-      match decodeElems G sel d1 with
+      match decodeElems G (maskSel rows v.num) d1 with
       | (.ok os, d2) => (.ok (v :: os), d2)
       | r => r
     | (.err x, d1) => (.err x, d1)
@@ -196,10 +204,7 @@ def parseOperand (G : Tables) (kind : Nat) (d : DState) : PRes IErr (List Operan
   | some (.enumParams e rows) =>
     match decodeElem G e d with
     | (.ok v, d1) =>
-      let sel := match rows.find? (fun r => r.1 == v.num) with
-        | some r => r.2
-        | none => []
-      match decodeElems G sel d1 with
+      match decodeElems G (enumSel rows v.num) d1 with
       | (.ok os, d2) => (.ok (v :: os), d2)
       | r => r
     | (.err x, d1) => (.err x, d1)
